@@ -113,7 +113,9 @@ Inductive event :=
 | EForceLoad (now d : N) (on : bool)      (* hook VerifForceUnderLoad *)
 | EShiftSecret (d : N)                    (* hook VerifShiftCookieSecret *)
 | EShiftPeerCookie (p d : N)              (* hook VerifShiftPeerCookie *)
-| EShiftHs (p d : N).                     (* hook VerifShiftHandshakeTimes *)
+| EShiftHs (p d : N)                      (* hook VerifShiftHandshakeTimes *)
+| ESetIdentity (now k : N).               (* UAPI private_key=: the device's static key becomes key number k
+                                             (removal = the all-zero private key, which has a public key of its own) *)
 
 Inductive output :=
 | OCookie (to : addr) (receiver : N) (enc : term)
@@ -366,6 +368,19 @@ Definition shift_hs (x : peer) (d : N) : peer :=
      p_last_sent := p_last_sent x - d; p_staged := p_staged x; p_has_cur := p_has_cur x;
      p_has_next := p_has_next x; p_ver := p_ver x |}.
 
+(* Device.SetPrivateKey: cookieChecker.Init(new public key) — new MAC1 and cookie-encryption keys, the cookie
+   secret counts as not drawn (secretSet = zero time); every peer: ExpireCurrentKeypairs (Handshake.Clear,
+   lastSentHandshake back-dated, send counters of the keypairs pushed to the limit: nothing can be sent
+   under them any more). *)
+Definition reset_peer (now : N) (x : peer) : peer :=
+  {| p_id := p_id x; p_gen := p_gen x; p_hs := 0; p_hid := p_hid x; p_endpoint := p_endpoint x;
+     p_last_sent := now - (RekeyTimeout + 1000000000); p_staged := p_staged x;
+     p_has_cur := false; p_has_next := false; p_ver := p_ver x |}.
+
+Definition set_identity (st : dstate) (now k : N) : dstate :=
+  {| d_pk := k; d_has_secret := false; d_epoch := d_epoch st; d_secret_set := d_secret_set st;
+     d_load_until := d_load_until st; d_peers := map (reset_peer now) (d_peers st) |}.
+
 Definition step (st : dstate) (e : event) : dstate * list output :=
   match e with
   | ERecv now m qload allow nonce body => recv st now m qload allow nonce body
@@ -383,6 +398,7 @@ Definition step (st : dstate) (e : event) : dstate * list output :=
        | Some x => set_peer st (shift_hs x d)
        | None => st
        end, [])
+  | ESetIdentity now k => (set_identity st now k, [])
   end.
 
 (* A freshly started peer: Peer.Start puts lastSentHandshake RekeyTimeout + 1 s into the past. *)
